@@ -181,7 +181,7 @@ impl Prop for C09 {
     }
 
     fn rule(&self) -> String {
-        "Cases: (a) every position along a generated walk at depth 1 and 2 alternately (5 cases in 11: cheap trees in large numbers, about 10^5 in the quick tier, for the rare capture geometries in which an unsound pruning rule of the capture search or the depth-1 layer would show); (b) the end position of a generated walk (capture-biased picks so that quiescence matters; curated endgames included) imported from text, depth 1-4 (5-6 for positions with at most six men), history table fresh or pre-filled with generated values. With the node-entry hook emptying the transposition table at every node, get_best_move_entry(..).score must equal an exhaustive negamax written in the harness on the engine's own move generator and score with the same leaf rules (interior: checked list, mate = MIN+100+ply, stalemate 0; depth-1 layer: unchecked list, MIN+2000+ply; quiescence: stand-pat, tactical moves of the unchecked list, MIN+3000+ply when nothing is generated), both clamped to ±15000; and the score with a pre-filled history table must equal the score with a fresh one. Roots with fewer than two legal moves (single-reply shortcut), trees containing a quiescence node with a king but no generated move, and reference trees above 700 000 nodes (25 000 for the shallow trees of (a)) are skipped and counted. evaluations = trees compared. Non-trivial tree: depth >= 2 and at least one tactical move searched in quiescence; distinct by (position, depth).".into()
+        "Cases: (a) every position along a generated walk at depth 1 and 2 alternately (5 cases in 11: cheap trees in large numbers, about 10^5 in the quick tier, for the rare capture geometries in which an unsound pruning rule of the capture search or the depth-1 layer would show); (b) the end position of a generated walk (capture-biased picks so that quiescence matters; curated endgames included) imported from text, depth 1-4 (5-6 for positions with at most six men, up to 8 for at most four men; 2 cases in 13 are such tiny positions at depth 5-8), history table fresh or pre-filled with generated values. With the node-entry hook emptying the transposition table at every node, get_best_move_entry(..).score must equal an exhaustive negamax written in the harness on the engine's own move generator and score with the same leaf rules (interior: checked list, mate = MIN+100+ply, stalemate 0; depth-1 layer: unchecked list, MIN+2000+ply; quiescence: stand-pat, tactical moves of the unchecked list, MIN+3000+ply when nothing is generated), both clamped to ±15000; and the score with a pre-filled history table must equal the score with a fresh one. Roots with fewer than two legal moves (single-reply shortcut), trees containing a quiescence node with a king but no generated move, and reference trees above 700 000 nodes (25 000 for the shallow trees of (a)) are skipped and counted. evaluations = trees compared. Non-trivial tree: depth >= 2 and at least one tactical move searched in quiescence; distinct by (position, depth).".into()
     }
 
     fn assumptions(&self) -> Vec<String> {
@@ -192,7 +192,7 @@ impl Prop for C09 {
     }
 
     fn cases(&self, tier: Tier) -> u32 {
-        tier.pick(11_000, 220_000)
+        tier.pick(13_000, 260_000)
     }
 
     fn shard_timeout_s(&self, tier: Tier) -> u64 {
@@ -205,6 +205,13 @@ impl Prop for C09 {
         prop_oneof![
             6 => (walk_strategy(false), depth, hist).prop_map(|(walk, depth, history)| TreeCase { walk, depth, history, along: false }),
             5 => (walk_strategy(false), 0u8..2).prop_map(|(walk, depth)| TreeCase { walk, depth, history: Vec::new(), along: true }),
+            // kings and one or two men, depth 5-8: lines long enough to come back to a position of the same line
+            2 => (0u8..64, 0u8..64, proptest::collection::vec((any::<u8>(), 0u8..64), 1..3), any::<bool>(), proptest::collection::vec(pick_strategy(), 0..6), 5u8..9).prop_map(|(wk, bk, men, white, picks, depth)| TreeCase {
+                walk: Walk { start: Start::Built(Construct { home: 0, wk, bk, men, white, cr: 0, ep: 0 }), picks },
+                depth,
+                history: Vec::new(),
+                along: false,
+            }),
         ]
         .boxed()
     }
@@ -223,7 +230,7 @@ impl Prop for C09 {
             }
             return Ok(());
         }
-        self.compare(&r.end, case.depth, &case.history, NODE_BUDGET, ev)
+        self.compare(&r.end, case.depth, &case.history, if case.depth >= 7 { NODE_BUDGET / 4 } else { NODE_BUDGET }, ev)
     }
 }
 
@@ -240,7 +247,7 @@ impl C09 {
         let fen = p.fen6();
         let g = Game::new(&fen).map_err(|e| Fail::new("sane-position-not-importable", e.to_string()))?;
         // depth 5 and 6 only where the exhaustive reference is still feasible: at most six men
-        let depth = if p.men() <= 6 { case_depth.clamp(1, 6) } else { case_depth.clamp(1, 4) };
+        let depth = if p.men() <= 4 { case_depth.clamp(1, 8) } else if p.men() <= 6 { case_depth.clamp(1, 6) } else { case_depth.clamp(1, 4) };
         let mut rf = Reference { nodes: 0, weird: false, q_captures: 0, terminals: [0; 5], max_q_ply: 0, budget };
         let mut gc = g.clone();
         let want = match eng::guarded(|| rf.root(&mut gc, depth)) {
